@@ -177,10 +177,18 @@ mod abi {
     /// Call `f` with `args` through the trampoline of its convention and check
     /// every callee-saved register, rsp and the direction flag.
     pub unsafe fn call_checked(name: &str, what: &str, abi: Abi, f: *const c_void, args: &[u64; 10]) -> Result<(), String> {
+        // every stack alignment modulo 64 at the call (the kernels re-align their frames with `and rsp, -64`)
+        for pad in [0u64, 16, 32, 48] {
+            call_checked_pad(name, &format!("{} [rsp pad {}]", what, pad), abi, f, args, pad)?;
+        }
+        Ok(())
+    }
+
+    unsafe fn call_checked_pad(name: &str, what: &str, abi: Abi, f: *const c_void, args: &[u64; 10], pad: u64) -> Result<(), String> {
         let mut out = [0u64; 32];
         match abi {
             Abi::SysV => {
-                cshim::verif_tramp_sysv(f, args.as_ptr(), out.as_mut_ptr());
+                cshim::verif_tramp_sysv(f, args.as_ptr(), out.as_mut_ptr(), pad);
                 let regs = [("rbx", S_RBX), ("rbp", S_RBP), ("r12", S_R12), ("r13", S_R13), ("r14", S_R14), ("r15", S_R15)];
                 for (i, (r, s)) in regs.iter().enumerate() {
                     ensure!(out[i] == *s, "{} {}: callee-saved register {} not preserved (System V): {:#018x} instead of {:#018x}", name, what, r, out[i], s);
@@ -189,7 +197,7 @@ mod abi {
                 ensure!(out[8] & (1 << 10) == 0, "{} {}: returned with the direction flag set", name, what);
             }
             Abi::Win64 => {
-                cshim::verif_tramp_win64(f, args.as_ptr(), out.as_mut_ptr());
+                cshim::verif_tramp_win64(f, args.as_ptr(), out.as_mut_ptr(), pad);
                 let regs = [("rbx", S_RBX), ("rbp", S_RBP), ("rdi", S_RDI), ("rsi", S_RSI), ("r12", S_R12), ("r13", S_R13), ("r14", S_R14), ("r15", S_R15)];
                 for (i, (r, s)) in regs.iter().enumerate() {
                     ensure!(out[i] == *s, "{} {}: callee-saved register {} not preserved (Win64): {:#018x} instead of {:#018x}", name, what, r, out[i], s);
@@ -211,10 +219,13 @@ mod abi {
                 let block = block_bytes(*block_kind, *block_seed);
                 let want16 = b3spec::compress(cv, &b3spec::words_from_bytes_64(&block), *counter, *block_len as u32, *flags as u32);
                 if let Some(f) = k.cip {
-                    let mut got = *cv;
-                    let args = [got.as_mut_ptr() as u64, block.as_ptr() as u64, *block_len as u64, *counter, *flags as u64, 0, 0, 0, 0, 0];
-                    unsafe { call_checked(k.name, "compress_in_place", k.abi, f, &args)? };
-                    ensure!(got[..] == want16[..8], "{}: compress_in_place via trampoline differs from spec", k.name);
+                    // in place: restore the cv before each of the four stack alignments
+                    for pad in [0u64, 16, 32, 48] {
+                        let mut got = *cv;
+                        let args = [got.as_mut_ptr() as u64, block.as_ptr() as u64, *block_len as u64, *counter, *flags as u64, 0, 0, 0, 0, 0];
+                        unsafe { call_checked_pad(k.name, &format!("compress_in_place [rsp pad {}]", pad), k.abi, f, &args, pad)? };
+                        ensure!(got[..] == want16[..8], "{}: compress_in_place via trampoline differs from spec", k.name);
+                    }
                 }
                 if let Some(f) = k.cxof {
                     let mut out = [0u8; 64];
